@@ -224,7 +224,9 @@ Inductive ifaceres := IfOk (raw : bytes) | IfErr (msg : bytes).
 Definition AppendInterface (dst : bytes) (r : ifaceres) : bytes :=
   match r with IfOk raw => dst ++ raw | IfErr msg => AppendString dst msg end.
 
-(* AppendStringer: nil -> AppendInterface(nil) *)
+(* AppendStringer: nil -> AppendNil since the fix "a nil Stringer ... through InterfaceMarshalFunc" (before it: AppendInterface(nil),
+   the installed marshal function's answer for nil; the parameter nil_iface is kept and instantiated with [nil_stringer_iface]) *)
+Definition nil_stringer_iface : ifaceres := IfOk (AppendNil []).
 Definition AppendStringer (dst : bytes) (v : option bytes) (nil_iface : ifaceres) : bytes :=
   match v with None => AppendInterface dst nil_iface | Some s => AppendString dst s end.
 Definition AppendStringers (dst : bytes) (l : list (option bytes)) (nil_iface : ifaceres) :=
